@@ -51,3 +51,8 @@ func (c *ShipConnection) VerifArmTimer(timerType uint, duration time.Duration) {
 func (c *ShipConnection) VerifStopTimer() {
 	c.stopHandshakeTimer()
 }
+
+// VerifState returns only the handshake state, read under the state mutex.
+func (c *ShipConnection) VerifState() model.ShipMessageExchangeState {
+	return c.getState()
+}
